@@ -611,7 +611,7 @@ func (e *Engine) searchReplay(sr *SolveResult, rf *replayFile, timeoutMs int) bo
 			if tried > 8 || time.Now().After(deadline) {
 				break
 			}
-			s2 := solveOblig(r2, o2, timeoutMs, false)
+			s2 := solveOblig(r2, o2, timeoutMs, true) // thorough flag: no patient retry here, a sat answer is all that matters
 			if s2 == nil || s2.Status != "sat" {
 				continue
 			}
